@@ -240,6 +240,27 @@ PROGFUZZ = {
         assumptions=["rustc compiles the generated crate faithfully", "the reference evaluator is correct",
                      "a generic struct signature is not exercised by this check (see DESIGN.md)"],
     ),
+    "C10": dict(
+        quick=dict(programs=90, cases=25), thorough=dict(programs=1000, cases=100),
+        level="exploration",
+        rule="Program skeletons around a tagged relation R (binary R(T,T) and ternary R(K,T,T), T = u32): feeders: from inputs, recursive through nxt / through another relation, staged by a tick relation that advances inside R's stratum (facts for the same key / class arrive over many iterations), key-to-key propagation for the ternary form (keys pause and resume), readers that feed R again; readers with every bound-column subset (free, first, second, both, repeated variable R(x,x), constant, wildcard; with and without the key), R as first, second or third clause, !R(..) and count() over R in a later stratum. Inputs: small graphs with chains, cycles, self loops, back edges, several keys. Oracle: the reference evaluator on the same program with R closed explicitly after every round (eqrel: reflexive on mentioned elements, symmetric, transitive, per key), observed through plain relations (R's own field is a FakeVec); a panic is a violation. Non-trivial: facts reach R in >= 2 distinct rounds of its stratum; distinct (program text, input) pairs.; every fourth binary program also as ascent_par! in pools 1, 2, 4, 8 with perturbation",
+        assumptions=["rustc compiles the generated crate faithfully", "the reference evaluator and its explicit closure (engine/core/src/eval.rs close_ds) are correct",
+                     "element type u32; access patterns limited to those the provider macros accept"],
+    ),
+    "C11": dict(
+        quick=dict(programs=90, cases=25), thorough=dict(programs=1000, cases=100),
+        level="exploration",
+        rule="Program skeletons around a tagged relation R (binary R(T,T) and ternary R(K,T,T), T = u32): feeders: from inputs, recursive through nxt / through another relation, staged by a tick relation that advances inside R's stratum (facts for the same key / class arrive over many iterations), key-to-key propagation for the ternary form (keys pause and resume), readers that feed R again; readers with every bound-column subset (free, first, second, both, repeated variable R(x,x), constant, wildcard; with and without the key), R as first, second or third clause, !R(..) and count() over R in a later stratum. Inputs: small graphs with chains, cycles, self loops, back edges, several keys. Oracle: the reference evaluator on the same program with R closed explicitly after every round (trrel: transitive closure per key, so cycles imply (x,x)), observed through plain relations (R's own field is a FakeVec); a panic is a violation. Non-trivial: facts reach R in >= 2 distinct rounds of its stratum; distinct (program text, input) pairs.",
+        assumptions=["rustc compiles the generated crate faithfully", "the reference evaluator and its explicit closure (engine/core/src/eval.rs close_ds) are correct",
+                     "element type u32; access patterns limited to those the provider macros accept"],
+    ),
+    "C12": dict(
+        quick=dict(programs=90, cases=25), thorough=dict(programs=1000, cases=100),
+        level="exploration",
+        rule="Program skeletons around a tagged relation R (binary R(T,T) and ternary R(K,T,T), T = u32): feeders: from inputs, recursive through nxt / through another relation, staged by a tick relation that advances inside R's stratum (facts for the same key / class arrive over many iterations), key-to-key propagation for the ternary form (keys pause and resume), readers that feed R again; readers with every bound-column subset (free, first, second, both, repeated variable R(x,x), constant, wildcard; with and without the key), R as first, second or third clause, !R(..) and count() over R in a later stratum. Inputs: small graphs with chains, cycles, self loops, back edges, several keys. Oracle: the reference evaluator on the same program with R closed explicitly after every round (trrel_uf: reflexive on mentioned elements + transitive, per key), observed through plain relations (R's own field is a FakeVec); a panic is a violation. Non-trivial: facts reach R in >= 2 distinct rounds of its stratum; distinct (program text, input) pairs.",
+        assumptions=["rustc compiles the generated crate faithfully", "the reference evaluator and its explicit closure (engine/core/src/eval.rs close_ds) are correct",
+                     "element type u32; access patterns limited to those the provider macros accept"],
+    ),
 }
 
 
